@@ -105,10 +105,10 @@ def datatype_scope(ctx, clause):
             except Exception:
                 needle = norm(x.left)
             if needle == '"^^':
-                obs.append(Ob(clause, "R-SCOPE", "R-SCOPE|decide_literal_type|%s" % norm(x), f.loc(x), True,
+                obs.append(Ob(clause, "R-SCOPE", "R-SCOPE|decide_literal_type|%s" % f.key(x), f.loc(x), True,
                               "`%s`: the marker contains the closing quote itself" % norm(x)))
                 continue
-            obs.append(Ob(clause, "R-SCOPE", "R-SCOPE|decide_literal_type|%s" % norm(x), f.loc(x), False,
+            obs.append(Ob(clause, "R-SCOPE", "R-SCOPE|decide_literal_type|%s" % f.key(x), f.loc(x), False,
                           "`%s` searches the whole token, lexical form included: a literal whose text contains %r gets its datatype "
                           "from its content" % (norm(x), needle)))
     return obs
@@ -141,6 +141,11 @@ def statement_automaton(ctx, clause):
     chain = [s for s in loop.body if isinstance(s, ast.If)]
     if len(chain) != 1:
         raise AnalysisError("token dispatch chain not found in the token loop")
+    # the token variable is whatever the loop condition compares with None
+    tvars = [x.id for x in ast.walk(loop.test) if isinstance(x, ast.Name)]
+    if len(set(tvars)) != 1:
+        raise AnalysisError("token variable of the token loop not identified from its condition `%s`" % norm(loop.test))
+    tvar = tvars[0]
     obs = []
     bad_loop = [x for x in ast.walk(loop) if isinstance(x, (ast.Break, ast.Continue, ast.Return))]
     obs.append(Ob(clause, "R-LOOP", "R-LOOP|token-loop-total|BigTtlTriplesYielder._process_line_with_potential_triples", proc.loc(loop), not bad_loop,
@@ -152,7 +157,7 @@ def statement_automaton(ctx, clause):
     for sname, sval in states.items():
         for tok in (",", ";", ".", "TERM"):
             token = tok if tok != "TERM" else "<http://e/x>"
-            env = {"next_token": token, "self._state": sval, "self._tmp_s": "S", "self._tmp_p": "P", "self._tmp_o": "O",
+            env = {tvar: token, "self._state": sval, "self._tmp_s": "S", "self._tmp_p": "P", "self._tmp_o": "O",
                    "self._base": None, "self._prefixes": {}}
             from ..abseval import Raised, Fork, _Break, _Continue
             ev._decisions, ev._taken, ev.effects, ev._yields = [], [], [], [[]]
@@ -263,7 +268,7 @@ def index_kinds(ctx, clause):
         if isinstance(x, ast.Subscript) and isinstance(x.slice, ast.Slice) and x.slice.upper is not None:
             k = kind(x.slice.upper, nt)
             ok = k == KIND_EXCL
-            obs.append(Ob(clause, "R-IDX", "R-IDX|_next_line_token|%s" % norm(x), nt.loc(x), ok,
+            obs.append(Ob(clause, "R-IDX", "R-IDX|_next_line_token|%s" % nt.key(x), nt.loc(x), ok,
                           "slice `%s` ends at an exclusive index" % norm(x) if ok else
                           "slice `%s` uses a %s index as its (exclusive) upper bound" % (norm(x), k)))
     return obs
@@ -291,7 +296,7 @@ def bounds_checks(ctx, clause):
                     ok = isinstance(op, ast.LtE)
                 else:
                     continue
-                obs.append(Ob(clause, "R-BOUND", "R-BOUND|%s|%s" % (f.short, norm(x)[:60]), f.loc(x), ok,
+                obs.append(Ob(clause, "R-BOUND", "R-BOUND|%s|%s" % (f.short, f.key(x)[:60]), f.loc(x), ok,
                               "`%s` excludes every index that `%s` cannot take" % (norm(guard), norm(sb)) if ok else
                               "`%s` lets %s == len(%s) through to `%s`: IndexError when the token ends the line" % (norm(guard), idx, seq, norm(sb)),
                               note=not ctx.reachable(f)))
